@@ -845,6 +845,13 @@ fn gen_grow(rng: &mut Rng, ovf: bool, huge: bool) -> GCase {
         }
         use_strides = true;
     }
+    if !huge && rng.chance(1, 4) {
+        // while the growth axis has at most one entry its stride is unconstrained: pick a small
+        // one, so that growing may overlap (the overlap check of the *new* layout must refuse)
+        use_strides = true;
+        shape[d] = rng.usize_below(2);
+        strides[d] = rng.usize_below(5);
+    }
     if huge {
         use_strides = true;
         // a stride that makes (new_size - 1) * stride wrap; only legal while size <= 1
